@@ -574,6 +574,8 @@ func (push *Push) runTask(input *pushNotify) {
 	push.updateLastSeq(input.subscribe.Name)
 
 	push.postwg.Add(1)
+	//在启动goroutine之前设置running状态(调用者持有push.mu), 避免check2ResumePush在goroutine被调度之前重复启动任务
+	atomic.StoreInt32(&input.status, running)
 	go func(in *pushNotify) {
 		var lastesBlockSeq int64
 		var continueFailCount int32
@@ -581,7 +583,6 @@ func (push *Push) runTask(input *pushNotify) {
 
 		subscribe := in.subscribe
 		lastProcessedseq := push.getLastPushSeq(subscribe)
-		atomic.StoreInt32(&in.status, running)
 
 		runChan := make(chan struct{}, 10)
 		pushMaxSeq := pushBlockMaxSeq
